@@ -266,7 +266,7 @@ def run_text(shard):
     """reaction SMILES round trips with radicals, fragment grouping and empty roles (text level)"""
     from chython import smiles
     acc = Acc()
-    mols = ['CCO', 'C[CH2] |^1:1|', '[Na+].[Cl-]', 'CC(=O)[O-].[Na+]', '[OH] |^1:0|', 'C=C', '[Cl] |^1:0|']
+    mols = ['CCO', 'C[CH2] |^1:1|', '[Na+].[Cl-]', 'CC(=O)[O-].[Na+]', '[OH] |^1:0|', 'C=C', '[Cl] |^1:0|', '[K+].[K+].[O-]C([O-])=O', '[Na+].[Na+].[Na+].[O-]P([O-])([O-])=O', 'O.O.[Cu+2].[O-]S([O-])(=O)=O']
     plain = ['CCO', 'C[CH2]', '[Na+].[Cl-]', 'CC(=O)[O-].[Na+]', '[OH]', 'C=C', '[Cl]']
     from chython import ReactionContainer
     objs = [smiles(s) for s in mols]
@@ -296,7 +296,7 @@ def run_text(shard):
 def plan(tier, seed):
     return [Stage('ground-truth edits', run_cases, [(k, 32, tier) for k in range(32)],
                   'reactant sets of 1-3 small molecules/salts x (0, 1, 2) edits from {order change, cleavage, formation, charge, radical} x role shapes x role-internal permutations x GEN renumberings'),
-            Stage('reaction SMILES round trips', run_text, [0], 'role counts {0,1,2}^3 with radicals and multi-component salts in every role')]
+            Stage('reaction SMILES round trips', run_text, [0], 'role counts {0,1,2}^3 with radicals and salts of 2, 3, 4 and 5 components in every role and every position')]
 
 
 def replay(rec):
